@@ -620,6 +620,28 @@ func init() {
 			nested := itemBytes(0x00800006, 0x0e, append(append([]byte{}, other...), it...))
 			anyCase(cw, padBlocks(frameBytes(nested, crc, 1, 2)), "N value-edge nested-last")
 		}
+		// deeply nested containers: decoding has to stay linear in the size of the frame
+		depths := []int{25, 40, 64, 200, 1000}
+		if thorough {
+			depths = append(depths, 3000, 9000)
+		}
+		for _, d := range depths {
+			it := itemBytes(0x00800005, 3, []byte{9})
+			for k := 0; k < d; k++ {
+				it = itemBytes(0x00800006+uint32(k%3), 0x0e, it)
+			}
+			anyCase(cw, padBlocks(frameBytes(it, d%2 == 0, 1, 2)), fmt.Sprintf("N deep-nesting depth=%d", d))
+			// … and two children per level near the top (a count pass over the children would double the work per level)
+			if d <= 64 {
+				leaf := itemBytes(0x00800005, 3, []byte{9})
+				it2 := leaf
+				for k := 0; k < d; k++ {
+					it2 = itemBytes(0x00800006, 0x0e, append(append([]byte{}, leaf...), it2...))
+				}
+				anyCase(cw, padBlocks(frameBytes(it2, true, 1, 2)), fmt.Sprintf("N deep-nesting two-children depth=%d", d))
+				chunkCase(cw, g, padBlocks(frameBytes(it2, true, 1, 2)), fmt.Sprintf("N deep-nesting two-children depth=%d", d))
+			}
+		}
 		if thorough {
 			// every control word on a fixed small frame, with and without matching CRC
 			ms := []rscp.Message{{Tag: rscp.BAT_INDEX, DataType: rscp.UInt16, Value: uint16(7)}}
